@@ -1,6 +1,7 @@
 package main
 
 import (
+	"strconv"
 	"context"
 	"encoding/hex"
 	"encoding/json"
@@ -33,6 +34,7 @@ type c02Case struct {
 	Cuts     []int  `json:"packet_cuts"`          // body offsets where a new packet starts
 	EmptyAt  []int  `json:"empty_packets_at"`     // body offsets at which a header-only packet (no EOM) is inserted
 	EmptyEOM bool   `json:"header_only_eom"`      // the EOM flag travels on a trailing header-only packet
+	EmptyTail int   `json:"header_only_packets_before_the_eom_packet,omitempty"` // with EmptyEOM: further header-only packets (no EOM) directly before it
 	Reads    []int  `json:"read_cuts,omitempty"`  // stream offsets where a new read() result starts; nil+ViaReader = one read
 	Via      string `json:"via"`                  // "writepacket" (Channel.WritePacket directly) | "reader" (transport + reader goroutine)
 	Bounds   []int  `json:"package_bounds"`
@@ -187,6 +189,25 @@ func c02DeliverOpt(pkts [][]byte, via string, reads []int, prelude bool) (out c0
 			}
 			return
 		}
+		if strings.HasPrefix(via, "reader-send-after:") {
+			// a pipelining client: after the first j packets have been
+			// processed it sends its next request on the channel, then
+			// the rest of the response arrives
+			j, _ := strconv.Atoi(strings.TrimPrefix(via, "reader-send-after:"))
+			for i, p := range pkts {
+				k.tr.Feed(p)
+				if i+1 == j {
+					k.tr.AwaitIdle()
+					if err := k.ch.SendPackage(k.ctx, &tds.LanguagePackage{Cmd: "select 2"}); err != nil {
+						mu.Lock()
+						got.Errs = append(got.Errs, "send: "+err.Error())
+						mu.Unlock()
+					}
+				}
+			}
+			k.tr.AwaitIdle()
+			return
+		}
 		stream := xport.Concat(pkts)
 		k.tr.FeedPartition(stream, reads)
 		k.tr.AwaitIdle()
@@ -226,6 +247,14 @@ func c02Exec(c *Ctx, cs c02Case, ref c02Ref) {
 	r.Eval(1)
 	body, _ := hex.DecodeString(cs.BodyHex)
 	pkts := c02Packets(body, cs.Cuts, cs.EmptyAt, cs.EmptyEOM)
+	if cs.EmptyEOM && cs.EmptyTail > 0 {
+		last := pkts[len(pkts)-1]
+		pkts = pkts[:len(pkts)-1]
+		for i := 0; i < cs.EmptyTail; i++ {
+			pkts = append(pkts, xport.Packet(byte(tds.TDS_BUF_RESPONSE), 0, 0, nil))
+		}
+		pkts = append(pkts, last)
+	}
 	out, err := c02DeliverOpt(pkts, cs.Via, cs.Reads, cs.Prelude)
 	if err != nil {
 		r.Inconclusive("cannot set up connection: %v", err)
@@ -252,7 +281,7 @@ func c02Exec(c *Ctx, cs c02Case, ref c02Ref) {
 		inside = true
 	}
 	if inside {
-		key, _ := json.Marshal([]interface{}{cs.Resp, cs.Family, cs.Cuts, cs.EmptyAt, cs.EmptyEOM, cs.Reads, cs.Prelude})
+		key, _ := json.Marshal([]interface{}{cs.Resp, cs.Family, cs.Cuts, cs.EmptyAt, cs.EmptyEOM, cs.Reads, cs.Prelude, cs.EmptyTail})
 		r.Distinct(string(key))
 	}
 	fam := cs.Family
@@ -414,11 +443,25 @@ func runC02(c *Ctx) {
 			if at[0] == n {
 				at[0] = n - 1
 			}
+			if i%3 == 2 {
+				at = append(at, at[0]) // two in a row
+			}
 			add("header-only-packet-inserted", func(cs *c02Case) { cs.Cuts = cu; cs.EmptyAt = at })
 		}
 		for i := 0; i < 4; i++ {
 			cu := randomCuts(rnd, n, rnd.Range(0, 3))
-			add("header-only-eom-packet", func(cs *c02Case) { cs.Cuts = cu; cs.EmptyEOM = true })
+			tail := i % 3 // 0, 1 or 2 further header-only packets before the one carrying EOM
+			add("header-only-eom-packet", func(cs *c02Case) { cs.Cuts = cu; cs.EmptyEOM = true; cs.EmptyTail = tail })
+		}
+		// (f2) a request sent by the client between two packets of the response
+		for i := 0; i < 6; i++ {
+			cu := randomCuts(rnd, n, rnd.Range(1, 4))
+			np := len(c02Packets(body, cu, nil, false))
+			if np < 2 {
+				continue
+			}
+			via := fmt.Sprintf("reader-send-after:%d", rnd.Range(1, np-1))
+			add("request-sent-between-packets", func(cs *c02Case) { cs.Cuts = cu; cs.Via = via })
 		}
 		// (g) read partitions through the transport
 		for i := 0; i < 3; i++ {
